@@ -36,6 +36,7 @@ ASSUMPTIONS = [
 SHARDS = {"quick": 16, "thorough": 16}
 MIN_REACH = {
     "crops_named_by_a_relative_parent_dir": {"quick": 6, "thorough": 60},
+    "scripts_for_a_project_directory_with_pattern_characters": {"quick": 8, "thorough": 100},
     "scripts_generated": {"quick": 40, "thorough": 400},
     "script_executions": {"quick": 35, "thorough": 400},
     "programs_compiled": {"quick": 35, "thorough": 400},
@@ -145,6 +146,12 @@ def run_case(ctx, case):
         tmp = os.path.join(root, "my project")
         os.makedirs(tmp)
         ctx.count("scripts_for_a_project_directory_with_a_space_and_a_local_module")
+    elif (not case.get("cli")) and (case.get("idx", 0) % 5 == 4 or (case.get("mode") == "array" and case["state"] != "none" and
+                                                                     case.get("ids_kind") == "none" and case.get("idx", 0) % 2 == 0)):
+        # ... or whose name contains characters that are special in file-name patterns
+        tmp = os.path.join(root, "sweep[1]")
+        os.makedirs(tmp)
+        ctx.count("scripts_for_a_project_directory_with_pattern_characters")
     logfile = os.path.join(tmp, "calls.log")
     cap = os.path.join(tmp, "cap")
     bindir = os.path.join(tmp, "bin")
